@@ -31,8 +31,9 @@ import (
 )
 
 type fullSyncLease struct {
-	ctx    context.Context
-	cancel func()
+	ctx      context.Context
+	cancel   func()
+	released bool // the end request took the lease back; its expiry must not reset the sync any more
 }
 
 type ProxyDatasetConfig struct {
@@ -114,25 +115,22 @@ func (ds *Dataset) RefreshFullSyncLease(fullSyncID string) error {
 
 			// start new lease
 			ctx, cancel := context.WithTimeout(context.Background(), ds.store.fullsyncLeaseTimeout)
-			ds.fullSyncLease = &fullSyncLease{
-				ctx,
-				cancel,
-			}
+			lease := &fullSyncLease{ctx: ctx, cancel: cancel}
+			ds.fullSyncLease = lease
 
 			go func() {
-				currentFsID := ds.fullSyncID
-
 				<-ctx.Done()
 				verifhook.Point("ds.lease.afterDone")
-				endTime, ok := ctx.Deadline()
-				// time out was the cause
-				now := time.Now()
-				if ok && now.After(endTime) && ds.fullSyncID == currentFsID {
+				if !errors.Is(ctx.Err(), context.DeadlineExceeded) {
+					return // canceled by refresh, release or a new start. do nothing
+				}
+				// time out was the cause. only the current, unreleased lease may reset the sync
+				if ds.fullSyncLease == lease && !lease.released {
 					ds.fullSyncStarted = false
 					ds.fullSyncSeen = make(map[uint64]int)
 					ds.fullSyncID = ""
 					ds.fullSyncLease = nil
-				} // else, canceled by refresh. do nothing
+				} // else this lease is not the current one any more
 			}()
 
 			return nil
@@ -151,7 +149,8 @@ func (ds *Dataset) ReleaseFullSyncLease(fullSyncID string) error {
 		return errors.New("no active fullsync lease found, can't complete")
 	}
 
-	if ds.fullSyncLease != nil && ds.fullSyncLease.cancel != nil {
+	ds.fullSyncLease.released = true
+	if ds.fullSyncLease.cancel != nil {
 		ds.fullSyncLease.cancel()
 	}
 	return nil
